@@ -7,7 +7,7 @@ import copy
 import warnings
 from datetime import datetime, timezone, timedelta
 
-from vlib.h import ob
+from vlib.h import ob, native
 from harness.sigfix import *          # noqa
 from harness import sigfix
 from pgpy import PGPKey, PGPUID
@@ -25,7 +25,7 @@ OUTSIDE = ['protect / unlock inside histories (C06 covers them; real S2K with co
            'key algorithms other than Ed25519 (the operations studied do not depend on the algorithm)']
 ASSUMPTIONS = ['ideal signature functionality']
 
-TS = [datetime.fromtimestamp(1_600_000_000 + 100 * i, timezone.utc) for i in range(8)]
+TS = [datetime.fromtimestamp(1_600_000_000 + 100 * i, timezone.utc) for i in range(10)]
 CERTIFIER = new_key('certifier', sub=False)
 NOPS = 11
 HELD = []          # public twins taken during a history and kept referenced by the caller
@@ -165,6 +165,18 @@ def consistent(key, st):
 
 
 def run_history(ops, ties):
+    """ops / ties may be symbolic: they are made concrete per path first (if-chains), then the history runs natively"""
+    conc = []
+    for op in ops:
+        for k in range(NOPS):
+            if op == k:
+                conc.append(k)
+    tie = True if ties else False
+    with native():
+        return run_concrete(conc, tie)
+
+
+def run_concrete(ops, ties):
     sigfix.Oracle.multi = True
     sigfix.Oracle.pairs = []
     del HELD[:]
@@ -173,9 +185,7 @@ def run_history(ops, ties):
         st = State()
         t = 1
         for j, op in enumerate(ops):
-            for k in range(NOPS):
-                if op == k:
-                    key = apply(key, st, k, TS[t])
+            key = apply(key, st, op, TS[t])
             if not (ties and j == 0):
                 t += 1                      # `ties`: the first two steps happen in the same second
         return consistent(key, st)
@@ -185,21 +195,26 @@ def run_history(ops, ties):
 
 @ob('O15.1', 'after a key-management history every self-signature, subkey binding and revocation on the key verifies under its public half - on the private key, its public twin, '
              'a re-imported export and a copy; identities, subkeys, revocations, effective flags and primary mark are those the history produced',
-    'histories of 1..2 (quick) / 3 (thorough) steps over 11 operations {add identity, add image, add signing subkey, add encryption subkey, re-certify with new preferences, third-party certify, '
-    'revoke identity, revoke subkey or key, remove identity / add revoker, export+import, take the public twin and keep it}; first two steps in the same second or not', cond_timeout={'q': 290, 't': 1500}, path_timeout=200,
-    partitions={'q': [['n == 1']] + [['n == 2', 'o0 == %d' % a] for a in range(NOPS)],
-                't': [['n == 1']] + [['n == 2', 'o0 == %d' % a] for a in range(NOPS)] + [['n == 3', 'o0 == %d' % a, 'o1 == %d' % b] for a in range(NOPS) for b in range(NOPS)]})
-def history(n: int, o0: int, o1: int, o2: int, ties: bool) -> bool:
+    'histories of 1..3 (quick) / 1..4 and those 5-step ones that begin with add-identity or add-signing-subkey (thorough) steps over 11 operations {add identity, add image, add signing subkey, add encryption subkey, re-certify with new preferences, third-party certify, '
+    'revoke identity, revoke subkey or key, remove identity / add revoker, export+import, take the public twin and keep it}; first two steps in the same second or not; each path is one concrete history run natively',
+    cond_timeout={'q': 290, 't': 1500}, path_timeout=200,
+    partitions={'q': [['n == 1']] + [['n == 2', 'o0 == %d' % a] for a in range(NOPS)] + [['n == 3', 'o0 == %d' % a] for a in range(NOPS)],
+                't': [['n <= 2']] + [['n == 3', 'o0 == %d' % a] for a in range(NOPS)] + [['n == 4', 'o0 == %d' % a, 'o1 == %d' % b] for a in range(NOPS) for b in range(NOPS)] +
+                     [['n == 5', 'o0 == %d' % a, 'o1 == %d' % b] for a in (0, 2) for b in range(NOPS)]})
+def history(n: int, o0: int, o1: int, o2: int, ties: bool, o3: int = 0, o4: int = 0) -> bool:
     """
-    pre: 1 <= n <= 3
-    pre: 0 <= o0 < NOPS and 0 <= o1 < NOPS and 0 <= o2 < NOPS
+    pre: 1 <= n <= 5
+    pre: 0 <= o0 < NOPS and 0 <= o1 < NOPS and 0 <= o2 < NOPS and 0 <= o3 < NOPS and 0 <= o4 < NOPS
     pre: n >= 2 or (o1 == 0 and not ties)
     pre: n >= 3 or o2 == 0
+    pre: n >= 4 or o3 == 0
+    pre: n >= 5 or o4 == 0
+    pre: n <= 4 or o0 == 0 or o0 == 2
     post: _
     """
-    ops = [o0, o1, o2]
+    ops = [o0, o1, o2, o3, o4]
     out = []
-    for j in range(3):
+    for j in range(5):
         if j < n:
             out.append(ops[j])
     return run_history(out, ties)
